@@ -92,13 +92,15 @@ def check_case(case):
   labels = set()
   builts = []
   for i, shape in enumerate(case['probes']):
-    shape = dict(shape, name=f'pr{i}')
+    shape = dict(shape, name=shape.get('name') or f'pr{i}')
     builts.append(G.build(shape, gin))
   names = [b.selector.split('.')[-1] for b in builts]
   gin.constant(CONST, ('the', 'constant'))
 
   def written(i):
     b = builts[i]
+    if b.shape.get('gin_module'):
+      return b.selector                      # twin names: only the complete name is unambiguous
     if b.shape['kind'] == 'method' and b.shape.get('method_api', 'register') == 'register':
       return '.'.join(b.selector.split('.')[-2:])
     return names[i]
@@ -236,14 +238,24 @@ def check_case(case):
   caller_sup, gin_sup = set(), set()
   n_calls = 0
   for step in case['steps']:
-    if step[0] == 'rebind':
+    if step[0] in ('rebind', 'rebind_key'):
       candidates = sorted((pi, k) for pi in range(len(cfg)) for k, v in cfg[pi].items()
                           if v[0] == 'lit')
+      if step[0] == 'rebind_key':
+        candidates = [c for c in candidates if c == (step[1] % len(builts), (step[3], step[4]))]
       if not candidates:
         continue
       pi, (scope, param) = candidates[step[1] % len(candidates)]
-      gin.bind_parameter((scope, builts[pi].selector, param), step[2])
-      cfg[pi][(scope, param)] = ['lit', step[2]]
+      new_value = step[2]
+      old_value = cfg[pi][(scope, param)][1]
+      if new_value == '<<EQUAL>>':
+        # equal under ==, yet another value: "showing the value used most recently"
+        new_value = (float(old_value) if type(old_value) is int else
+                     tuple(old_value) if type(old_value) is list else
+                     list(old_value) if type(old_value) is tuple else 'other')
+        labels.add('rebind-to-equal-value-of-other-type')
+      gin.bind_parameter((scope, builts[pi].selector, param), new_value)
+      cfg[pi][(scope, param)] = ['lit', new_value]
       rebound = True
       labels.add('rebind')
       continue
@@ -308,8 +320,21 @@ def check_case(case):
     except Exception as e:  # pylint: disable=broad-except
       raise Violation('operative-config-does-not-parse', f'{type(e).__name__}: {e}\n{text}')
 
+  # every printed selector must resolve, by unique dotted suffix, to one full name of this case
+  full_names = {}
+  for i, b in enumerate(builts):
+    full_names[b.selector] = ('probe', i)
+    if b.shape['kind'] == 'method':
+      full_names[b.selector.rsplit('.', 1)[0]] = ('host', i)
+
+  def resolve(printed):
+    cands = [f for f in full_names if f == printed or f.endswith('.' + printed)]
+    require(len(cands) == 1, 'printed-selector-does-not-resolve-uniquely',
+            lambda: f'{printed!r} matches {cands} among {sorted(full_names)}\n{text}')
+    return cands[0]
+
   def printed_name(pi):
-    return written(pi)
+    return builts[pi].selector
 
   def representable(v):
     return not has_nonlit(v)
@@ -317,7 +342,8 @@ def check_case(case):
   exp_sections, exp_bindings, exp_macros = set(), {}, {}
   for (scope, who), params in record.items():
     if who[0] in ('probe', 'host'):
-      pname = printed_name(who[1]) if who[0] == 'probe' else builts[who[1]].cls.__name__
+      pname = (printed_name(who[1]) if who[0] == 'probe'
+               else builts[who[1]].selector.rsplit('.', 1)[0])
       exp_sections.add((scope + '/' if scope else '') + pname)
       for p, v in params.items():
         if representable(v):
@@ -328,9 +354,11 @@ def check_case(case):
   for s in stmts:
     if isinstance(s, config_parser.BindingStatement):
       if s.arg_name:
-        got_bindings[(s.scope, s.selector, s.arg_name)] = typed(s.value)
+        got_bindings[(s.scope, resolve(s.selector), s.arg_name)] = typed(s.value)
       else:
         got_macros[(s.scope + '/' if s.scope else '') + s.selector] = typed(s.value)
+  got_sections = {(sec.rsplit('/', 1)[0] + '/' if '/' in sec else '') + resolve(sec.rsplit('/', 1)[-1])
+                  for sec in got_sections}
   require(got_sections == exp_sections, 'sections',
           lambda: f'got {sorted(got_sections)} expected {sorted(exp_sections)}\n{text}')
   require(got_bindings == exp_bindings, 'parameters',
@@ -406,6 +434,14 @@ def strategy(draw):
       shape['allowlist' if lists == 'allow' else 'denylist'] = draw(
           st.lists(st.sampled_from(named), unique=True, min_size=1, max_size=3))
     probes.append(shape)
+  if n == 3 and draw(st.integers(0, 2)) == 0:
+    # two registered methods with the same class name and method name in two modules: the text
+    # has to keep them apart
+    for i, gm in ((0, 'ma.nets'), (1, 'mb.nets')):
+      probes[i].update(kind='method', api='register', method_api='register', name='net',
+                       gin_module=gm)
+      probes[i].pop('allowlist', None)
+      probes[i].pop('denylist', None)
 
   macros = []
   for m in draw(st.lists(st.sampled_from(MACROS), unique=True, min_size=1, max_size=2)):
@@ -447,7 +483,7 @@ def strategy(draw):
   steps = []
   for _ in range(draw(st.integers(2, 7))):
     if draw(st.integers(0, 7)) == 0:
-      steps.append(['rebind', draw(st.integers(0, 9)), draw(_lit)])
+      steps.append(['rebind', draw(st.integers(0, 9)), draw(_lit | st.just('<<EQUAL>>'))])
       continue
     pi = draw(st.sampled_from([0, 0, 0, 1, n - 1]))
     named = G.named_params(probes[pi % n])
@@ -455,4 +491,13 @@ def strategy(draw):
             'kw': draw(st.lists(st.sampled_from(named), unique=True, max_size=3)) if named else [],
             'req': draw(st.lists(st.sampled_from(named), unique=True, max_size=2)) if named else []}
     steps.append(['call', pi, draw(st.lists(_entry, max_size=3)), spec])
+  lits = [b for b in bindings if b[3][0] == 'lit' and type(b[3][1]) in (int, list, tuple)]
+  if lits and draw(st.booleans()):
+    # call, re-bind one applicable literal to an ==-equal value of another type, call again: the
+    # operative config must show the value used most recently
+    scope, pi, param, _ = draw(st.sampled_from(lits))
+    entries = [scope] if scope else []
+    spec = {'n_pos': 0, 'kw': [], 'req': []}
+    steps += [['call', pi, entries, spec], ['rebind_key', pi, '<<EQUAL>>', scope, param],
+              ['call', pi, entries, spec]]
   return {'probes': probes, 'macros': macros, 'bindings': bindings, 'steps': steps}
